@@ -200,7 +200,22 @@ func TestEjectionCap(t *testing.T) {
 // TestRecycleKeepsRecoveredNode (thorough only; real timers): a node that failed, then completed a request
 // successfully, is still known after the recycle interval.
 func TestRecycleKeepsRecoveredNode(t *testing.T) {
-	hx.Check(t, hx.N{Quick: 2, Thorough: 4}, func(t *rapid.T, c *hx.Case) {
+	hx.Check(t, hx.N{Quick: 1, Thorough: 2}, func(t *rapid.T, c *hx.Case) {
+		nn := rapid.IntRange(2, 6).Draw(t, "nodes")
+		recovers := make([]bool, nn)
+		for i := range recovers {
+			recovers[i] = rapid.Bool().Draw(t, "recovers")
+		}
+		recovers[rapid.IntRange(0, nn-1).Draw(t, "oneRecoversForSure")] = true
+		for _, reloaded := range []string{"no", "changed", "cleared-and-loaded-again"} { // every variant in every case
+			recycleOnce(t, c, nn, recovers, reloaded)
+		}
+		c.NonTrivial()
+	})
+}
+
+func recycleOnce(t *rapid.T, c *hx.Case, nn int, recovers []bool, reloaded string) {
+	{
 		res := fmt.Sprintf("rec-%d", atomic.AddInt64(&caseNo, 1))
 		hx.Reset(hx.Epoch)
 		rule := &outlier.Rule{Rule: &cb.Rule{Id: res, Resource: res, Strategy: cb.ErrorCount, RetryTimeoutMs: 10, MinRequestAmount: 1, StatIntervalMs: 1000, Threshold: 1},
@@ -208,7 +223,6 @@ func TestRecycleKeepsRecoveredNode(t *testing.T) {
 		if _, err := outlier.LoadRuleOfResource(res, rule); err != nil {
 			t.Fatal(err)
 		}
-		nn := rapid.IntRange(2, 6).Draw(t, "nodes")
 		recovered := map[string]bool{}
 		call := func(addr string, fail bool) {
 			e, _ := sentinel.Entry(res, sentinel.WithSlotChain(chain))
@@ -225,8 +239,8 @@ func TestRecycleKeepsRecoveredNode(t *testing.T) {
 		hx.C.AddMs(5)
 		call("n0", true) // this request sees the open breakers: outliers are handed to the recycler
 		time.Sleep(100 * time.Millisecond)
-		reloaded := rapid.Bool().Draw(t, "ruleReloadedMeanwhile")
-		if reloaded { // the rule is reloaded with another breaker threshold while the ejected nodes wait in the recycler
+		switch reloaded {
+		case "changed": // the rule is reloaded with another breaker threshold while the ejected nodes wait in the recycler
 			r2 := *rule
 			inner := *rule.Rule
 			inner.Threshold = 2
@@ -234,10 +248,20 @@ func TestRecycleKeepsRecoveredNode(t *testing.T) {
 			if _, err := outlier.LoadRuleOfResource(res, &r2); err != nil {
 				t.Fatal(err)
 			}
+		case "cleared-and-loaded-again": // the resource's rule is cleared and the same rule is loaded again (passive recovery: no retry tasks are queued)
+			if err := outlier.ClearRuleOfResource(res); err != nil {
+				t.Fatal(err)
+			}
+			r2 := *rule
+			inner := *rule.Rule
+			r2.Rule = &inner
+			if _, err := outlier.LoadRuleOfResource(res, &r2); err != nil {
+				t.Fatal(err)
+			}
 		}
 		hx.C.AddMs(20) // retry timeout elapsed: probes allowed
 		for i := 0; i < nn; i++ {
-			if rapid.Bool().Draw(t, "recovers") {
+			if recovers[i] {
 				addr := fmt.Sprintf("n%d", i)
 				call(addr, false)
 				recovered[addr] = true
@@ -251,9 +275,8 @@ func TestRecycleKeepsRecoveredNode(t *testing.T) {
 		}
 		for a := range recovered {
 			if !known[a] {
-				t.Fatalf("node %s completed a request successfully but was recycled (known nodes %v)", a, known)
+				t.Fatalf("rule reloaded meanwhile=%s: node %s completed a request successfully but was recycled (known nodes %v)", reloaded, a, known)
 			}
 		}
-		c.NonTrivial()
-	})
+	}
 }
